@@ -1074,6 +1074,15 @@ v("C10", "cycle-visited-first", "break", SCIENCE,
 v("C10", "sticky-reset", "break", REWARDS,
   "        elif not self.config.sticky:  # if no new request and not sticky, set reward to 0\n            last_action_response.reward_info = {\"connection_attempt_status\": \"n/a\"}\n            self.reward = 0.0",
   "        elif self.config.sticky:  # if no new request and not sticky, set reward to 0\n            last_action_response.reward_info = {\"connection_attempt_status\": \"n/a\"}\n            self.reward = 0.0", "R10.4", "sticky and non-sticky swapped")
+v("C10", "db-penalty-reads-any-response", "break", REWARDS,
+  '''        if request_attempted:  # if agent makes request, always recalculate fresh value
+            last_action_response.reward_info = {"connection_attempt_status": last_action_response.response.status}
+            self.reward = 1.0 if last_action_response.response.status == "success" else -1.0
+        elif not self.config.sticky:''',
+  '''        if request_attempted or last_action_response.response.status != "success":
+            last_action_response.reward_info = {"connection_attempt_status": last_action_response.response.status}
+            self.reward = 1.0 if last_action_response.response.status == "success" else -1.0
+        elif not self.config.sticky:''', "R10.4", "any failed action counts as a failed database request")
 v("C10", "benign-loop-unpack", "benign", REWARDS,
   "        for comp_and_weight in self.reward_components:\n            comp = comp_and_weight[0]\n            weight = comp_and_weight[1]\n            total +=",
   "        for comp, weight in self.reward_components:\n            total +=", None, "tuple unpacking in the loop header")
@@ -1241,6 +1250,18 @@ v("C19", "values-order", "break", PROB,
 v("C19", "uniform-sampling", "break", PROB,
   "self.rng.choice(len(self.action_manager.action_map), p=self.probabilities)",
   "self.rng.choice(len(self.action_manager.action_map))", "R19.5", "probabilities ignored")
+v("C19", "handler-given-the-current-step", "break", P + "game/agent/scripted_agents/TAP001.py",
+  "        if not self._tap_return_handler(self.current_timestep):",
+  "        if not self._tap_return_handler(timestep - 1):", "R19.6", "looks at the in-between do-nothing item")
+v("C19", "turn-marker-moved-before-the-handler", "break", P + "game/agent/scripted_agents/TAP003.py",
+  '''        # self.current_timestep is currently the previous execution timestep
+        # So it can be used to index action history.
+        if not self._tap_return_handler(self.current_timestep):''',
+  '''        self.update_current_timestep(new_timestep=timestep)
+        if not self._tap_return_handler(self.current_timestep):''', "R19.6", "previous turn's marker overwritten first")
+v("C19", "benign-handler-binds-the-item", "benign", TAP,
+  '''        if self.history[timestep].response.status != "success":''',
+  '''        if not (self.history[timestep].response.status == "success"):''', None, "negated equality")
 v("C19", "benign-gate-swapped", "benign", RAND,
   "        if timestep == self.next_execution_timestep and self.num_executions < self.config.agent_settings.max_executions:",
   "        if self.config.agent_settings.max_executions > self.num_executions and self.next_execution_timestep == timestep:", None, "operands and conjuncts swapped")
